@@ -72,6 +72,7 @@ ACTIONS = [
     ('stl-prefix-1-one-user-file', NOSTL, dict(w=64, use_stl=True, stl_prefix=1)),
     ('stl-prefix-1-three-user-files', PREFIXED, dict(w=64, use_stl=True, stl_prefix=1, extra_files=2)),
     ('stl-prefix-2-two-user-files', PREFIXED, dict(w=64, use_stl=True, stl_prefix=2, extra_files=1)),
+    ('stl-prefix-2-trimmed-from-the-public-path-list', PREFIXED, dict(w=64, use_stl=True, stl_take=2)),
 ]
 CORE3 = ('hello64', 'fail-in-nested-ns', 'unknown-macro', 'recursion-depth-5', 'depth-2000', 'stl-other-short-names', 'defines-constants-then-fails',
          'stl-prefix-1-one-user-file', 'warning-program')
@@ -97,7 +98,7 @@ PROBES = [
 
 
 def do_assemble(text, wd, tag, w=64, use_stl=True, version=1, werror=False, max_recursion_depth=None, names=None, stl_names=None, subdir=None,
-                stl_prefix=None, extra_files=0, filename=None):
+                stl_prefix=None, extra_files=0, filename=None, stl_take=None):
     """assemble through the public assembler entry; -> (fjm bytes or None, fjd bytes or None, error class name)"""
     from flipjump.assembler import assembler
     from flipjump.fjm.fjm_consts import FJMVersion
@@ -118,6 +119,15 @@ def do_assemble(text, wd, tag, w=64, use_stl=True, version=1, werror=False, max_
         # only the first stl files in front of the user files (the parse cache keys on whatever stl files lead the list)
         tuples = tuples[:stl_prefix] + tuples[nstl:]
         nstl = stl_prefix
+    if stl_take is not None:
+        # the same reduced stl, built the way a caller would: take the public list of stl paths and trim ITS OWN list in place
+        import flipjump
+        paths = flipjump.get_stl_paths()
+        del paths[stl_take:]
+        paths.reverse()
+        paths.reverse()
+        tuples = [(f's{i}', p_) for i, p_ in enumerate(paths, start=1)] + tuples[nstl:]
+        nstl = stl_take
     for k in range(extra_files):
         extra = d / f'{tag}-extra{k}.fj'
         extra.write_text(f'extra_{tag.replace("-", "_")}_{k}:\n  ;extra_{tag.replace("-", "_")}_{k}\n')
